@@ -489,16 +489,17 @@ theorem instrLen_prunable (a : Arch) (op : String) (h : op ∈ Rtl.prunable) : a
   rcases h with rfl | rfl | rfl | rfl <;>
     simp [Arch.instrLen, declLayout, layout, modeOk, Arch.width] <;> omega
 
-theorem onlyDestRegs_sound' (a : Arch) (prog : List Bits) (s : RtlState) (p : PortsIn)
+theorem onlyDestRegs_sound' (a : Arch) (prog : List Bits) (used : String → List Nat) (s : RtlState) (p : PortsIn)
+    (hused : ∀ op k, k ∈ Rtl.destRegs a prog op → k ∈ used op)
     (hws : a.wordSize = 0) (hlen : ∀ w ∈ prog, w.length = a.maxWord) (hpc : s.pc < prog.length) :
-    Rtl.cycleOpt a (Rtl.destRegs a prog) prog s p = Rtl.cycle a prog s p := by
+    Rtl.cycleOpt a used prog s p = Rtl.cycle a prog s p := by
   unfold Rtl.cycleOpt Rtl.cycle
   have hw : prog[s.pc]? = some prog[s.pc] := List.getElem?_eq_getElem hpc
   have hmem : prog[s.pc] ∈ prog := List.getElem_mem hpc
   generalize prog[s.pc] = w at hw hmem
   rw [fetch_eq hw]
   have hW := hlen w hmem
-  suffices Rtl.mainBlockOpt a (Rtl.destRegs a prog) (getId w) s p = Rtl.mainBlock a (getId w) s p by
+  suffices Rtl.mainBlockOpt a used (getId w) s p = Rtl.mainBlock a (getId w) s p by
     simp only [this]
   unfold Rtl.mainBlockOpt
   cases hc : Rtl.curOp a (getId w) with
@@ -516,7 +517,8 @@ theorem onlyDestRegs_sound' (a : Arch) (prog : List Bits) (s : RtlState) (p : Po
         rw [opcode_eq_part w a.maxWord a.opBits hW (by omega)]; exact hc
       have hk := field_eq_part w a.maxWord a.opBits 0 a.r hW (by omega)
       simp only [Nat.add_zero, Isa.field, List.drop_zero] at hk
-      have hin : Rtl.part (getId w) a.maxWord a.opBits a.r ∈ Rtl.destRegs a prog op := by
+      have hin : Rtl.part (getId w) a.maxWord a.opBits a.r ∈ used op := by
+        apply hused
         unfold Rtl.destRegs
         rw [List.mem_filterMap]
         exact ⟨w, hmem, by simp [hop, hk]⟩
